@@ -7,6 +7,26 @@ ENV = "GOFLAGS=-mod=mod GOPROXY=off GOSUMDB=off GOTOOLCHAIN=local GOWORK=off"
 
 # property id -> (technique, what is decided, what is not decided / trusted base, design ref)
 CLAIMS = {
+ "C02": ("route-table extraction + cut-reachability on go/ssa CFGs of the auth middlewares, deferred-authentication (BIG) atom extraction and handler reachability, drain-before-effect cut rule in the posix backend, literal-EOF typestate on the reader layers",
+         "Both auth middlewares (and DecodeURL, MD5, ACL) are registered before every route; every ctx.Next() of the auth middlewares lies behind a signature verdict, the deferred branch that installs the auth reader, or a frozen shortcut, and account/date/expiry/chunk-reader errors fail closed; every handler a deferred-authentication request can reach calls only PutObject/UploadPart with the deferred reader as Body on paths not excluded by IsBigDataAction's own atoms; posix PutObject/UploadPart perform persistent effects only after an io.Copy/io.ReadAll read the Body to its end through EOF-transparent wrappers; auth readers pass the inner EOF only after the check succeeded and chunk readers return a literal io.EOF only after the inner reader reached its end.",
+         "Does not decide that the SigV4 computation itself is right (signer unit tests), date arithmetic or canonicalisation; fiber routing facts (route patterns, trailing slash) are trusted as probed; s3proxy/azure are assumed to read Body to EOF inside the SDK. One known finding (version copy before the verdict).",
+         "DESIGN.md §4 C02"),
+ "C04": ("who-may-call layering over all packages + value-origin slices from request accessors to backend path slots + validator shape and cut rules + route-table order",
+         "Filesystem functions are called only from the frozen owner packages; every client string that controllers/middlewares hand to a backend path slot (bucket, key, versionId, uploadId, copy source, batch keys) originates only from accessors validated by DecodeURL, from the copy-source header validated in ParseCopySource, or from a decoded list validated element-wise; DecodeURL validates the decoded path and id queries, fails closed, and hands the router exactly the validated value; the validators reject '.'/'..'/separators and ParseCopySource returns only substrings of what it validated.",
+         "Kernel behaviour on odd names (NUL, length), symlink races and bucketlinks are not decided; the posix backend's own use of its parameters is trusted to stay within the slots listed in T-PATHSLOT; the validator check is a shape/necessary-condition check, not a proof of the predicate.",
+         "DESIGN.md §4 C04"),
+ "C13": ("value-origin slices on go/ssa (parser results to section reader, Content-Length, Content-Range) + cut-reachability + condition-origin analysis of the 206 decision",
+         "In posix.GetObject the body window, Content-Length and Content-Range all come from one ParseGetObjectRange call applied to the stat size and the request Range, Content-Range only on the isValid edge, the object is opened only after the parser accepted, and a 416 is returned; in GetActions the 206 status depends on the backend result's ContentRange and on no request accessor, and body/length/Content-Range are emitted from the backend result.",
+         "The numeric correctness of ParseGetObjectRange (interval arithmetic, clipping, off-by-one) is value-level and NOT decided; scoutfs reuses posix.GetObject; azure/s3proxy range handling is remote.",
+         "DESIGN.md §4 C13"),
+ "C14": ("table agreement over package-level constants and composite literals + cut-reachability/fail-closed rules on the validation chain + evaluation-shape rules on isAllowed/findMatch",
+         "Every action constant is grantable by name, the object-action list is a subset and agrees with the operation table, every action the gateway decides with is in the supported list; a policy is stored only after ValidatePolicyDocument succeeded on the same bytes and bucket, the validation chain reaches Effect/Principals/Resources/Action validation and swallows no failure, empty statement lists and action/resource kind mismatches are refused; isAllowed yields true only on a matching Allow and a matching Deny returns false at once; findMatch is the conjunction of the three matchers; VerifyBucketPolicy denies unless isAllowed.",
+         "The glob matcher (Resources.Match), wildcard action matching and JSON shape handling are value-level and not decided; an equivalent rewrite of the deny fold into a different control shape would need the rule to be re-stated.",
+         "DESIGN.md §4 C14"),
+ "C17": ("must-hold lock rule (must-pass + no-release-between) on go/ssa + closure-capture origins + cut-reachability write-through order + struct-literal completeness",
+         "Every storeIAM call holds the write lock and every store read a read lock; the update closure handed to storeIAM captures only method parameters and parses the data it is given (read-modify-write inside the lock); the store is replaced by temp-file+rename and failures are reported; IAMCache mutates the cache only after the service acknowledged, returns service failures, and cached copies carry all Account fields; accounts.getAccount asks the IAM service for every non-root key and is the only producer of Locals(account).",
+         "Histories and interleavings are not decided; external IAM services (ldap, vault, ipa, s3) are not examined; two known findings (cache insert after service call without a spanning lock).",
+         "DESIGN.md §4 C17"),
  "C10": ("cut-reachability on go/ssa CFGs (controllers, auth.CheckObjectAccess, posix retention/versioning) + value-origin slices",
          "Every destructive backend call in the S3 handlers (PutObject, CopyObject, CompleteMultipartUpload, DeleteObject, DeleteObjects) is reachable only through the success edge of auth.CheckObjectAccess taken for the same bucket and keys; CheckObjectAccess fails closed on legal hold, COMPLIANCE and GOVERNANCE-without-bypass edges and examines every listed object; posix.PutObjectRetention cannot overwrite a stored COMPLIANCE retention and a GOVERNANCE one only through the bypass edge; versioning cannot be suspended when an enabled lock configuration exists; the bypass flag derives from the request header / the bypass policy verdict.",
          "Does not decide date arithmetic, sequences of requests, or storage-level bypasses; ParseBucketLockConfigurationInput value handling is out of reach. One known finding (CompleteMultipartUpload has no lock check).",
